@@ -12,7 +12,7 @@ class Check(c01.Check):
     LEAN_TARGETS = ['Sc3Verif.C02.Props']
     LEAN_DIRS = ['Sc3Verif/C01', 'Sc3Verif/C02']
     THEOREMS = ['Sc3Verif.C02.' + t for t in (
-        'write_parse_roundtrip', 'emitted_bytes_parse', 'topo_order', 'topo_each_once')]
+        'write_parse_roundtrip', 'emitted_bytes_parse', 'topo_order', 'topo_each_once', 'topo_complete')]
     N_QUICK = 400
     N_THOROUGH = 8000
     ASSUMPTIONS = c01.Check.ASSUMPTIONS + [
